@@ -59,8 +59,9 @@ var paths = []pathCase{
 var queries = []string{"", "a=1&b=%20"}
 
 type bodyCase struct {
-	Name string
-	Data []byte
+	Name    string
+	Data    []byte
+	Chunked bool // sent with Transfer-Encoding: chunked (no Content-Length: net/http reports length -1)
 }
 
 func bigBody(seed byte) []byte {
@@ -73,7 +74,8 @@ func bigBody(seed byte) []byte {
 	return b
 }
 
-var reqBodies = []bodyCase{{"empty", nil}, {"small", []byte(`{"message":"deploy","type":"marker"}`)}, {"1MiB", bigBody(1)}}
+var reqBodies = []bodyCase{{Name: "empty"}, {Name: "small", Data: []byte(`{"message":"deploy","type":"marker"}`)}, {Name: "1MiB", Data: bigBody(1)},
+	{Name: "small-chunked", Data: []byte(`{"message":"deploy","type":"marker"}`), Chunked: true}}
 
 var binary256 = func() []byte {
 	b := make([]byte, 256)
@@ -83,7 +85,7 @@ var binary256 = func() []byte {
 	return b
 }()
 
-var upBodies = []bodyCase{{"empty", nil}, {"small", []byte(`{"id":"abc","ok":true}`)}, {"binary", binary256}, {"1MiB", bigBody(2)}}
+var upBodies = []bodyCase{{Name: "empty"}, {Name: "small", Data: []byte(`{"id":"abc","ok":true}`)}, {Name: "binary", Data: binary256}, {Name: "1MiB", Data: bigBody(2)}}
 
 type hdrSet struct {
 	Name  string
@@ -242,12 +244,17 @@ func sortedKeys(h http.Header) []string {
 	return ks
 }
 
-func clientWire(method, target string, lines []string, body []byte) []byte {
+func clientWire(method, target string, lines []string, body []byte, chunked bool) []byte {
 	var b bytes.Buffer
 	b.Grow(len(body) + 512)
 	fmt.Fprintf(&b, "%s %s HTTP/1.1\r\nHost: refinery.test:8080\r\n", method, target)
 	for _, l := range lines {
 		b.WriteString(l + "\r\n")
+	}
+	if chunked {
+		h := len(body) / 2
+		fmt.Fprintf(&b, "Transfer-Encoding: chunked\r\n\r\n%x\r\n%s\r\n%x\r\n%s\r\n0\r\n\r\n", h, body[:h], len(body)-h, body[h:])
+		return b.Bytes()
 	}
 	if len(body) > 0 {
 		fmt.Fprintf(&b, "Content-Length: %d\r\n", len(body))
@@ -315,7 +322,7 @@ func main() {
 	blocks := []block{{name: "full", sets: full}}
 	if !r.Thorough() {
 		a, b, c := full, full, full
-		a[3], a[7], a[8] = []int{0, 1}, []int{0, 1, 2}, []int{0}
+		a[3], a[7], a[8] = []int{0, 1, 3}, []int{0, 1, 2}, []int{0}
 		b[1], b[2], b[3], b[4], b[6], b[7], b[8] = []int{2}, []int{1}, []int{1, 2}, []int{1}, []int{1}, []int{1, 3}, []int{0}
 		c[3], c[7], c[8] = []int{1}, []int{1}, []int{1}
 		blocks = []block{{name: "A:shapes", sets: a}, {name: "B:1MiB", sets: b, keep: func(idx []int) bool { return idx[3] == 2 || idx[7] == 3 }}, {name: "C:peer-listener", sets: c}}
@@ -369,7 +376,7 @@ func main() {
 			}
 			w.api.arm(answer{Status: st.Code, Lines: upLines, Body: ub.Data})
 
-			req, err := http.ReadRequest(bufio.NewReaderSize(bytes.NewReader(clientWire(method, target, rh.Lines, rb.Data)), 1024))
+			req, err := http.ReadRequest(bufio.NewReaderSize(bytes.NewReader(clientWire(method, target, rh.Lines, rb.Data, rb.Chunked)), 1024))
 			if err != nil {
 				ev.Harness("client request does not parse: %v (%s %s)", err, method, target)
 			}
@@ -548,7 +555,7 @@ func main() {
 		sn = append(sn, strings.TrimSpace(fmt.Sprintf("%d %s", s.Code, s.Location)))
 	}
 	r.Set("rule", "upstream (parsed from the wire form of the relayed request): same method, request-target, body, every end-to-end client header with the same comma-joined value list, nothing added except client-library defaults, X-Forwarded-For = client's chain + the client; client: upstream status, every upstream header with the same comma-joined value list (Refinery defaults only where upstream sent none), same body")
-	r.Set("bounds", map[string]any{"methods": methods, "paths": pn, "queries": queries, "request_bodies": []string{"empty", "small", "1MiB"}, "request_header_sets": names(reqHdrSets),
+	r.Set("bounds", map[string]any{"methods": methods, "paths": pn, "queries": queries, "request_bodies": []string{"empty", "small", "1MiB", "small-chunked (Transfer-Encoding: chunked, two chunks)"}, "request_header_sets": names(reqHdrSets),
 		"upstream_statuses": sn, "upstream_header_sets": names(upHdrSets), "upstream_bodies": []string{"empty", "small", "binary-256", "1MiB"}, "listeners": []string{"incoming", "peer"},
 		"quick_blocks": "A: all x request bodies {empty,small} x upstream bodies {empty,small,binary} x incoming; B: 1 MiB on the request side, the answer side, or both x all methods x all statuses (multi-valued header sets, /x%2Fy with query, incoming); C: peer listener x all with small bodies. thorough = the full product"})
 	r.Assume("multi-valued headers (several field lines) are compared as the comma-joined list of their values — HTTP treats the two forms as equivalent (Set-Cookie, which is not, is outside the enumerated sets)")
